@@ -148,6 +148,18 @@ CHECKS["C14"] = dict(
          "adjacent white space are left to the implementation (two identities, strict and loose).",
     ref="4 C14", technique="TLA+ model checking (TLC) + stateful trace validation")
 
+CHECKS["C08"] = dict(
+    text="index_to_position / position_to_index (the code's newline-index algorithms), the code-action lookup "
+         "(range_to_span(..).with_len(1) overlap) and the three text-edit constructions are specified over texts of "
+         "{LF, CR, BMP, astral} classes in spec/PosConvOps.tla next to the LSP meaning of a position; TLC checks "
+         "RoundTrip, RangeCovers, LookupInside and client-side edit = Apply for every text up to the bound. Every "
+         "TLC text x every in-line span runs through the real pos_conv functions, and real multi-line documents run "
+         "through the real DocumentState (diagnostics, code actions at every character of every range, every edit "
+         "applied client-side); TLC validates ranges, look-ups and edits (spec/trace/Trace_PosConv.tla).",
+    note="Trusted: TLC; the harness's and the spec's independent readings of an LSP position. Lone CR line ends are "
+         "outside the property (LF and CRLF only); positions in the middle of a surrogate pair are not requested.",
+    ref="4 C08", technique="TLA+ model checking (TLC) + spec-to-code replay + trace validation")
+
 NOT_YET = {}
 
 
